@@ -137,6 +137,9 @@ class XFe(XArray):
                 a = XArray(a.shape + (1,) * (nt - ra), a.data)
             if rb < nt:
                 o = XArray(o.shape + (1,) * (nt - rb), o.data)
+        elif isinstance(o, XArray) and o.ndim > a._ndim:
+            # a plain array is a constant tensor: the field is padded to its rank (FeArray rank alignment)
+            a = XArray(a.shape + (1,) * (o.ndim - a._ndim), a.data)
         return a, o
 
     def _binop(self, o, f, reflected=False):
@@ -148,6 +151,20 @@ class XFe(XArray):
 
     def __neg__(self):
         return XFe.of(XArray.__neg__(self))
+
+    # explicit reflected operators: `ndarray <op> FeArray` is a FeArray (python gives a subclass's own
+    # reflected method priority over the left operand's method)
+    def __radd__(self, o):
+        return self._binop(o, lambda x, y: x + y, True)
+
+    def __rsub__(self, o):
+        return self._binop(o, lambda x, y: x - y, True)
+
+    def __rmul__(self, o):
+        return self._binop(o, lambda x, y: x * y, True)
+
+    def __rtruediv__(self, o):
+        return self._binop(o, lambda x, y: x / y, True)
 
     def __matmul__(self, o):
         if isinstance(o, (list, tuple)):
@@ -162,6 +179,8 @@ class XFe(XArray):
             return XFe.of(xe("...i,...ij->...j", self, o))
         if n1 == 2 and n2 == 1:
             return XFe.of(xe("...ij,...j->...i", self, o))
+        if n1 == 1 and n2 == 1:
+            return XFe.of(xe("...i,...i->...", self, o))
         raise AnalysisError(f"FeArray @ with tensor ranks ({n1},{n2}) is not modelled")
 
     def __rmatmul__(self, o):
@@ -174,6 +193,42 @@ class XFe(XArray):
 
     def integrate(self):
         return XArray.sum(self, 1)
+
+    def _keeps_fe(self, axis):
+        return axis is not None and not isinstance(axis, tuple) and (axis % self.ndim) >= 2
+
+    def sum(self, axis=None, **kw):
+        r = XArray.sum(self, axis)
+        return XFe.of(r) if self._keeps_fe(axis) and isinstance(r, XArray) else r
+
+    def mean(self, axis=None, **kw):
+        r = XArray.mean(self, axis, **kw)
+        return XFe.of(r) if self._keeps_fe(axis) and isinstance(r, XArray) and r.ndim >= 2 else r
+
+    def _contract(self, o, n):
+        """FeArray.dot (n = 1) / ddot (n = 2): the last n tensor indices of self with the first n of o"""
+        from .xarray import einsum as xe
+
+        if isinstance(o, (list, tuple)):
+            o = XArray.from_nested(o)
+        ra = self._ndim
+        fe_o = isinstance(o, XFe)
+        rb = o._ndim if fe_o else o.ndim
+        if ra < n or rb < n:
+            raise AnalysisError(f"FeArray contraction of {n} indices with tensor ranks ({ra},{rb})")
+        letters = "abcdefgh"
+        ia = letters[:ra]
+        shared = ia[ra - n:]
+        ib = shared + letters[ra: ra + rb - n]
+        out = ia[: ra - n] + ib[n:]
+        sub = f"...{ia},{'...' if fe_o else ''}{ib}->...{out}"
+        return XFe.of(xe(sub, self, o))
+
+    def dot(self, o):
+        return self._contract(o, 1)
+
+    def ddot(self, o):
+        return self._contract(o, 2)
 
     def __getitem__(self, key):
         r = XArray.__getitem__(self, key)
